@@ -103,9 +103,14 @@ func VerifC09FullSync(h *verifh.H) {
 	nops := h.Param("ops", 3)
 	for k := 0; k < nops; k++ {
 		tag := "k" + itoa(k)
-		op := h.Choice("op", 7)
+		op := h.Choice("op", 8)
 		when := "op" + itoa(k) + "=" + itoa(op)
 		switch op {
+		case 7: // a write to the dataset through a transaction (POST /transactions), sync running or not
+			ent := pool[1+h.Choice("ent", 2)]
+			txn := &Transaction{DatasetEntities: map[string][]*Entity{"d": mk(ent, tag)}}
+			h.Assert(hub.Store.ExecuteTransaction(txn) == nil, "transaction accepted :: "+when)
+			m.write(ent, tag)
 		case 0: // HTTP start with a batch
 			id := ids[h.Choice("sid", 2)]
 			ent := pool[1+h.Choice("ent", 2)]
